@@ -6,12 +6,16 @@
    documents in normal form are equal documents).  Hypotheses: from <= to for both steps, the first slice
    is OpenOK (valid nodes off its open sides: needed to know the intermediate document is valid), the
    second has open sides of the claimed depth.
-   That the merged step succeeds whenever the two steps do, and the merge of mark steps, are evaluated per
-   case by Corr.C16. *)
+   Theorem for mark steps: two add-mark (or two remove-mark) steps with == marks over overlapping or touching
+   ranges that AddMarkStep.merge / RemoveMarkStep.merge merge into one step over the union: if a applies, b
+   applies to the (valid) result and the merged step applies to the document, the results have the same token
+   sequence (C16_merged_mark_step_same_tokens; from the pointwise theorem of C13 and the idempotence of
+   Mark.add_to_set / remove_from_set).
+   That the merged step succeeds whenever the two steps do is evaluated per case by Corr.C16. *)
 From Coq Require Import List Arith.
 From PM Require Import Model.Data Model.Mark Model.Tree Model.Step Spec.Tokens
   Proofs.ReplaceValid Proofs.SliceSides Proofs.TokenBasics Proofs.ReplaceTokens Proofs.SliceShape Proofs.TokenLaws
-  Proofs.StepAlgebra Proofs.TokenInj Proofs.ReplaceCanon Proofs.DocEquality.
+  Proofs.StepAlgebra Proofs.TokenInj Proofs.ReplaceCanon Proofs.DocEquality Proofs.MarkSteps Proofs.MarkMerge.
 Import ListNotations.
 
 Theorem C16_merged_replace_step_same_tokens : forall s f1 t1 s1 st1 f2 t2 s2 st2 m doc da dab dm,
@@ -44,3 +48,12 @@ Theorem C16_merged_replace_step_equal_document : forall s f1 t1 s1 st1 f2 t2 s2 
   node_eqb dm dab = true.
 Proof. exact merged_replace_step_eq. Qed.
 Print Assumptions C16_merged_replace_step_equal_document.
+
+Theorem C16_merged_mark_step_same_tokens : forall s a b m doc da dab dm,
+  check s doc = true -> check s da = true -> merge s a b = Some m ->
+  (exists f t, mark_step_range a = Some (f, t) /\ f <= t) ->      (* a and b are add-mark / remove-mark steps *)
+  (exists f t, mark_step_range b = Some (f, t) /\ f <= t) ->
+  apply s a doc = ROk da -> apply s b da = ROk dab -> apply s m doc = ROk dm ->
+  DT s dm = DT s dab.
+Proof. exact merged_mark_step. Qed.
+Print Assumptions C16_merged_mark_step_same_tokens.
